@@ -297,18 +297,29 @@ static bool wrongly_kept(const RefMember &m, const Entry &e)
 {
   return m.tri == kMustDrop && !m.lenient_key.empty() && e.first == cstr(m.lenient_key) && e.second == cstr(m.lenient_value);
 }
-static std::string explained_by_dropped(const std::vector<RefMember> &ms, const Entry &e)
-{
-  for (auto &m : ms)
-    if (wrongly_kept(m, e))
-      return m.why;
-  return "";
-}
-
 static bool matches(const RefMember &m, const Entry &e)
 {
   return std::find(m.keys.begin(), m.keys.end(), e.first) != m.keys.end() &&
          std::find(m.values.begin(), m.values.end(), e.second) != m.values.end();
+}
+// An entry that a member which may be kept accounts for is never attributed to a dropped member that merely
+// reads the same once cut at a NUL ("k41%00=" next to a genuine "k41=").  A really kept bad member then shows
+// up as one entry too many (extract-result/unexplained-entry).
+static bool explained_by_valid(const std::vector<RefMember> &ms, const Entry &e)
+{
+  for (auto &m : ms)
+    if (m.tri != kMustDrop && matches(m, e))
+      return true;
+  return false;
+}
+static std::string explained_by_dropped(const std::vector<RefMember> &ms, const Entry &e)
+{
+  if (explained_by_valid(ms, e))
+    return "";
+  for (auto &m : ms)
+    if (wrongly_kept(m, e))
+      return m.why;
+  return "";
 }
 
 // ------------------------------------------------------------------------------------------
@@ -1303,7 +1314,7 @@ static void judge_header(Rng &r, const std::string &header, bool absent = false)
   {
     if (m.tri == kMustDrop)
     {
-      if (j < got.size() && wrongly_kept(m, got[j]))
+      if (j < got.size() && wrongly_kept(m, got[j]) && !explained_by_valid(p.members, got[j]))
       {
         R.violation("extract-drops-invalid", m.why,
                     "kept " + vf::show(got[j].first, 60) + " = " + vf::show(got[j].second, 60) + "; " + hshow);
